@@ -31,3 +31,38 @@ pub broadcast axiom fn axiom_enc_vec<T>(x: Vec<T>)
 pub fn ref_eq<T>(a: &[T], b: &[T]) -> (r: bool)
     ensures r == (a@ == b@)
 { unimplemented!() }
+
+// std: `impl<T: Hash> Hash for &T` "forwards to T": a reference feeds what its referent feeds.
+pub broadcast axiom fn axiom_enc_ref<T>(x: &T)
+    ensures #[trigger] enc::<&T>(x) == enc::<T>(*x);
+
+// `crate::stable::hasher()` (src/lib.rs): a fresh hasher with fixed keys; nothing written yet.
+#[verifier::external_body]
+pub struct StableHasher { _p: u8 }
+// `Hasher::finish` is a function of what was written (std: "returns the hash value for the values
+// written so far"); fixed keys make it the same function on every call and every thread.
+pub uninterp spec fn fin(s: Seq<int>) -> u64;
+#[verifier::external_body]
+pub fn stable_hasher() -> (h: StableHasher) ensures stream(h) == Seq::<int>::empty() { unimplemented!() }
+impl StableHasher {
+    #[verifier::external_body]
+    pub fn finish(&self) -> (r: u64) ensures r == fin(stream(*self)) { unimplemented!() }
+}
+
+// `Hasher::write_u64(w)` / `write_usize(w)`: one word is appended to the stream (rule R5_write)
+#[verifier::external_body]
+pub fn feed_u64<H>(w: u64, state: &mut H)
+    ensures stream(*final(state)) == stream(*old(state)).push(w as int)
+{ unimplemented!() }
+#[verifier::external_body]
+pub fn feed_usize<H>(w: usize, state: &mut H)
+    ensures stream(*final(state)) == stream(*old(state)).push(w as int)
+{ unimplemented!() }
+
+// std: `sort_unstable` "sorts the slice ... may reorder equal elements": sorted, and a permutation.
+pub open spec fn sorted_u64(s: Seq<u64>) -> bool { forall|i: int, j: int| 0 <= i <= j < s.len() ==> s[i] <= s[j] }
+#[verifier::external_body]
+pub fn sort_unstable_vec(v: &mut Vec<u64>)
+    ensures sorted_u64(final(v)@), final(v)@.to_multiset() == old(v)@.to_multiset()
+{ unimplemented!() }
+pub open spec fn words(s: Seq<u64>) -> Seq<int> { s.map_values(|w: u64| w as int) }
